@@ -252,3 +252,38 @@ pub fn vdiv(a: &[u64], b: &[u64]) -> Vec<u64> {
     }
     trim(q)
 }
+
+/// a mod b
+pub fn vmod(a: &[u64], b: &[u64]) -> Vec<u64> {
+    trim(vsub(a, &vmul(&vdiv(a, b), b)))
+}
+
+/// Does Knuth's algorithm D, dividing `x` by `d` (d with at least two significant limbs) with the 3-by-2 quotient estimate,
+/// take the add-back step for some quotient digit?  Reference simulation on exact integers.
+pub fn knuth_needs_addback(x: &[u64], d: &[u64]) -> bool {
+    let d = trim(d.to_vec());
+    let yc = d.len();
+    if yc < 2 { return false; }
+    let s = d[yc - 1].leading_zeros() as usize;
+    let y = fit(vshl(&d, s), yc);
+    let n = x.len();
+    let xs = fit(vshl(x, s), n + 1);
+    if n < yc { return false; }
+    let top2 = vec![y[yc - 2], y[yc - 1]];
+    let mut rem: Vec<u64> = xs[n + 1 - yc..].to_vec();          // the top yc limbs (x_hi and yc - 1 below it)
+    for xi in (0..=n - yc).rev() {
+        // window = rem * B + next limb
+        let mut win = vec![xs[xi]];
+        win.extend(fit(rem.clone(), yc));
+        let win = trim(win);
+        let w = fit(win.clone(), yc + 1);
+        let top3 = trim(vec![w[yc - 2], w[yc - 1], w[yc]]);
+        let mut qh = vdiv(&top3, &top2);
+        if qh.len() > 1 { qh = vec![MAX_WORD]; }
+        let q = vdiv(&win, &y);
+        if vcmp(&qh, &q).is_gt() { return true; }
+        rem = trim(vsub(&win, &vmul(&q, &y)));
+    }
+    false
+}
+const MAX_WORD: u64 = u64::MAX;
